@@ -641,17 +641,17 @@ def c04_job(job) -> List[Dict[str, Any]]:
         return [_inst("R4.6", "UNDECIDED", roles, "rate", "pairing kind of the model", f"abstract evaluation failed: {type(e).__name__}: {e}")]
     if partial is None:
         return [_inst("R4.6", "UNDECIDED", roles, "rate", "pairing kind of the model", "cannot tell full from partial pairing on a three-team game")]
-    for sizes in _sizes(tier):
+    for sizes, mode in [(sz, "ranks") for sz in _sizes(tier)] + [(sz, "scores") for sz in _sizes(tier) if max(sz) == 1]:
         n = len(sizes)
         for lv in weak_orderings(n):
             try:
-                base_run = run_rate(prog, roles, sizes, lv)
+                base_run = run_rate(prog, roles, sizes, lv, mode=mode)
                 bad = base_run.ok()
                 base = None if bad else state_terms(base_run)
             except Exception as e:  # noqa: BLE001
                 bad, base = f"abstract evaluation failed: {type(e).__name__}: {e}", None
             if base is None:
-                out.append(_inst("R4.6", "UNDECIDED", roles, "rate", f"team sizes {sizes}, {describe(lv)}", bad or "a stored value has no term"))
+                out.append(_inst("R4.6", "UNDECIDED", roles, "rate", f"team sizes {sizes}, {mode} {describe(lv)}", bad or "a stored value has no term"))
                 continue
             variants = []
             for k in range(n - 1):
@@ -664,9 +664,9 @@ def c04_job(job) -> List[Dict[str, Any]]:
                 if sz >= 2:
                     variants.append((f"players 0 and 1 of team {i} exchanged", dict(player_order={i: [1, 0] + list(range(2, sz))})))
             for what, kw in variants:
-                desc = f"same posterior for every player: team sizes {sizes}, {describe(lv)}, {what}"
+                desc = f"same posterior for every player: team sizes {sizes}, {mode} {describe(lv)}, {what}"
                 try:
-                    r2 = run_rate(prog, roles, sizes, lv, **kw)
+                    r2 = run_rate(prog, roles, sizes, lv, mode=mode, **kw)
                     bad = r2.ok()
                     t2 = None if bad else state_terms(r2)
                 except Exception as e:  # noqa: BLE001
@@ -729,10 +729,10 @@ def c02_job(job) -> List[Dict[str, Any]]:
     for sizes, lv, mode in all_cases:
         n = len(sizes)
         if True:
-            for ls in (False, True):
+            for ls in (False, True) + (("model",) if mode == "ranks" and len(sizes) <= 3 else ()):
                 desc = f"result[i][j] is the player passed at teams[i][j]: team sizes {sizes}, {mode} {describe(lv) if lv else ''}, limit_sigma={ls}".replace("  ", " ")
                 try:
-                    run = run_rate(prog, roles, sizes, lv, mode=mode, limit_sigma=ls)
+                    run = run_rate_seeded(prog, roles, sizes, lv, (), limit_from_model=True) if ls == "model" else run_rate(prog, roles, sizes, lv, mode=mode, limit_sigma=ls)
                     bad = run.ok()
                     pos = None if bad else result_positions(run)
                 except Exception as e:  # noqa: BLE001
@@ -1602,7 +1602,7 @@ def c11_rank_job(job) -> List[Dict[str, Any]]:
     return out
 
 
-def run_rate_seeded(prog, roles, sizes, levels, rels, *, limit_sigma=True) -> GameRun:
+def run_rate_seeded(prog, roles, sizes, levels, rels, *, limit_sigma=True, limit_from_model: bool = False) -> GameRun:
     """rate on an explicit game (ranks given, tau per call) with extra assumed relations between terms."""
     w = World(prog, roles, Box())
     I = w.I
@@ -1611,11 +1611,12 @@ def run_rate_seeded(prog, roles, sizes, levels, rels, *, limit_sigma=True) -> Ga
     common = prog.modules.get(f"{prog.package}.models.weng_lin.common")
     if common is not None:
         I.opaque_funcs = {common.funcs[n].fq for n in CORRECTIONS if n in common.funcs}
-    m = w.make_model(custom_gamma=False)
+    m = w.make_model(custom_gamma=False, overrides={"limit_sigma": Bool(bool(limit_sigma), frozenset(), None)} if limit_from_model else None)
     game_, players = build_game(w, sizes)
     prior = {who: (I.read_field(w.state, p, "mu"), I.read_field(w.state, p, "sigma")) for who, p in players.items()}
-    kwargs: Dict[str, Any] = {"ranks": build_values(w, levels, list(range(len(sizes)))), "tau": Num(kinds=frozenset({"float"}), sym=("param", "g.tau")),
-                              "limit_sigma": Bool(bool(limit_sigma), frozenset(), None)}
+    kwargs: Dict[str, Any] = {"ranks": build_values(w, levels, list(range(len(sizes)))), "tau": Num(kinds=frozenset({"float"}), sym=("param", "g.tau"))}
+    if not limit_from_model:
+        kwargs["limit_sigma"] = Bool(bool(limit_sigma), frozenset(), None)
     for a_, b_, r_ in rels:
         w.state.rel_set(a_, b_, frozenset({r_}))
     I.events.clear()
@@ -1637,12 +1638,13 @@ def cap_job(job) -> List[Dict[str, Any]]:
     out = []
     for sizes in [(1, 1), (2, 1)] + ([(1, 1, 1)] if tier == "thorough" else []):
         lvs = weak_orderings(len(sizes)) if len(sizes) == 2 else [(0, 1, 2), (1, 0, 1)]
-        for lv in lvs:
-            desc = f"with limit_sigma the sigma stored for a player is at most that player's own prior: team sizes {sizes}, {describe(lv)}"
+        for lv, from_model in [(lv, fm) for lv in lvs for fm in (False, True)]:
+            desc = (f"with limit_sigma the sigma stored for a player is at most that player's own prior: team sizes {sizes}, {describe(lv)}"
+                    + (", limit_sigma set on the model only" if from_model else ""))
             verdict, msg, n_leaves = "HOLDS", "", 0
 
-            def leaves(rels, depth):
-                run = run_rate_seeded(prog, roles, sizes, lv, rels)
+            def leaves(rels, depth, from_model=from_model, lv=lv):
+                run = run_rate_seeded(prog, roles, sizes, lv, rels, limit_from_model=from_model)
                 opens = [p for p in open_compares(run) if not any({p[0], p[1]} == {r[0], r[1]} for r in rels)]
                 if not opens or depth == 0:
                     return [(rels, run, bool(opens))]
